@@ -76,6 +76,22 @@ struct FDrv {
                 opaque(b);
                 fn(a, b);
             }
+            // fourth pass (vectors wider than 128 bits): uniform inside each 128-bit block, different between blocks -
+            // emulations that work block-wise and test a whole block at once
+            if (N * sizeof(S) > 16) {
+                const unsigned lpb = 16 / sizeof(S);
+                for (std::size_t i = 0; i + 1 < n; i += 2 * step) {
+                    A a, b;
+                    for (unsigned j = 0; j < N; ++j) {
+                        const std::pair<S, S>& p = P[(i + (j / lpb)) % n];
+                        a[j] = p.first;
+                        b[j] = p.second;
+                    }
+                    opaque(a);
+                    opaque(b);
+                    fn(a, b);
+                }
+            }
         }
     }
     template<class Fn>
